@@ -1,5 +1,49 @@
 """Which units decide which property."""
 PROPS = {
+    "C01": {
+        "units": [],
+        "gen": [{"corpus": "structs", "mode": "success"}],
+        "classes": r"postcondition|invariant|post-condition of closure|assertion failed",
+        "exclude_text": r"strs\(__alts@\)",
+        "level_text": "For each receiver of the corpus the from_list emitted by the working tree's derive is proved (Verus, all item lists of any length/order) "
+                      "to return exactly the value the declaration prescribes whenever the input is mistake-free: oracle fin(run(items)) generated from the descriptor "
+                      "(effective names, with/map/and_then, multiple in order, default chain, flatten hand-off, allow_unknown_fields, container map/and_then).",
+        "level_note": "Proof per program; programs sampled (quick 14, thorough ~250 incl. all ordered pairs of field options). Trusted: see evidence.assumptions (client-view FromMeta, opaque syn, rewrite rules).",
+        "design_ref": "DESIGN.md section 6 C01",
+        "assumptions": "L3",
+        "not_covered": ["element-level traits' from_derive_input etc. are covered under C08/C16", "L2 with_inherited/as_codegen_field are exercised only through the emitted code, not separately contracted"],
+    },
+    "C02": {
+        "units": ["l1_error_api", "c05_accumulator"],
+        "gen": [{"corpus": "structs", "mode": "err", "unit_span": True}],
+        "classes": r"postcondition|invariant|post-condition of closure",
+        "level_text": "Same emitted functions proved equal to the full oracle: Err(e_multiple(mistakes)) with one error per unknown name, repeat, literal item, "
+                      "failed conversion (located at name / name[i]), flatten failure and missing field, in order; Ok iff none. Span identity is abstracted (single-valued Span) so only C03 sees which span.",
+        "level_note": "Proof per program; programs sampled. Accumulator/Error::multiple contracts proved on real bodies. Body-layer conversion (Data/Fields::try_from) and maps are under C16/C14.",
+        "design_ref": "DESIGN.md section 6 C02",
+        "assumptions": "L3",
+    },
+    "C03": {
+        "units": ["l1_error_api"],
+        "gen": [{"corpus": "structs", "mode": "full"}],
+        "classes": r"postcondition|invariant|post-condition of closure",
+        "level_text": "with_span is proved first-writer-wins on the real body (r == e_with_span(self, span(node))); the emitted parsers are proved equal to an oracle in which "
+                      "every unknown/duplicate/literal/conversion error carries the span of the offending item itself and missing-field errors none, with Span opaque (so attaching another node's span fails).",
+        "level_note": "'inside the item' is modelled as equality with the span of that node (geometric containment is syn's). Proof per program; programs sampled. Span hand-down in flatten and trait default methods: see not_covered until those units land.",
+        "design_ref": "DESIGN.md section 6 C03",
+        "assumptions": "L3",
+        "not_covered": ["Error::into_vec span hand-down (F5)", "FromMeta default methods' span attachment", "enum receivers' spans (F7)"],
+    },
+    "C07": {
+        "units": [],
+        "gen": [{"corpus": "structs", "mode": "full"}],
+        "classes": r"precondition not satisfied|overflow|underflow|division by zero|index out of|unreachable|panic",
+        "level_text": "Every expect()/unwrap/index/arithmetic site and every accumulator-armed precondition in the emitted parsers is a proved Verus precondition for all inputs "
+                      "(e.g. Option::expect requires Some; finish requires armed).",
+        "level_note": "Proof per program; programs sampled. syn/std parsers and user converters assumed not to panic.",
+        "design_ref": "DESIGN.md section 6 C07",
+        "assumptions": "L3",
+    },
     "C05": {
         "units": ["c05_accumulator", "l1_error_api"],
         "assumptions": [
@@ -16,6 +60,20 @@ PROPS = {
         "design_ref": "DESIGN.md section 6 C05",
     },
 }
+
+L3_ASSUMPTIONS = [
+    "programs are sampled, not proved: each receiver of the corpus is verified for ALL inputs, the corpus (count in coverage.programs) is drawn from the option grammar",
+    "field types are abstract implementers of a client-view FromMeta trait: every conversion hook is a function of the item it is given and does not panic (prelude/l3.vrs)",
+    "syn values (Meta, Lit, Path) are opaque; path text, spans and clone-equality are uninterpreted functions of the node",
+    "user callables named in a declaration (with/map/and_then/default paths, Default impls) are external functions with uninterpreted spec twins",
+    "pre-pass rewrites on emitted code: R14 (::darling -> crate::darling shim module), R7 (identity::<fn..>(f)(x) -> f(x)), R11 (format!(\"{}[{}]\") -> fmt_idx), R5 (match on &str -> if chain), R4 (function value -> annotated closure), R16 (alternates array bound to a local so its view can be stated)",
+    "callee contracts of Error/Accumulator are those of prelude/error_api.vrs and prelude/acc_api.vrs, proved on the real bodies in units l1_error_api / c05_accumulator; unknown_field_with_alts and add_sibling_alts_for_unknown_field are assumed at the instantiation used",
+    "the case-rule string function (ident_case) is not verified: expected names come from an independent Python implementation of the six rules",
+]
+
+for _p in PROPS.values():
+    if _p.get("assumptions") == "L3":
+        _p["assumptions"] = L3_ASSUMPTIONS
 
 NOT_APPLICABLE = {
     "C20": "compilation success of emitted impls in a downstream crate is decided by rustc's type checker over generated programs; "
